@@ -264,7 +264,9 @@ fn from_wire(w: WireVerdict) -> Verdict {
 
 /// Child side: read one JSON case per line on stdin, answer one JSON verdict per line.
 pub fn worker_main<P: Property>() -> i32 {
-    install_quiet_panic_hook();
+    if std::env::var("VERIF_PANIC_TRACE").is_err() {
+        install_quiet_panic_hook();
+    }
     // address-space limit: an unbounded loop that allocates is killed by the allocator failing.
     unsafe {
         let lim = libc::rlimit { rlim_cur: 8 << 30, rlim_max: 8 << 30 };
@@ -303,7 +305,7 @@ impl Worker {
             .arg(id)
             .stdin(std::process::Stdio::piped())
             .stdout(std::process::Stdio::piped())
-            .stderr(std::process::Stdio::null())
+            .stderr(if std::env::var("VERIF_PANIC_TRACE").is_ok() { std::process::Stdio::inherit() } else { std::process::Stdio::null() })
             .spawn()
             .expect("spawn worker");
         let stdin = child.stdin.take().unwrap();
@@ -771,7 +773,9 @@ pub fn run<P: Property>(opts: &Opts) -> i32 {
 }
 
 pub fn replay<P: Property>(path: &Path) -> i32 {
-    install_quiet_panic_hook();
+    if std::env::var("VERIF_PANIC_TRACE").is_err() {
+        install_quiet_panic_hook();
+    }
     let known = load_known(P::ID);
     let s = match std::fs::read_to_string(path) {
         Ok(s) => s,
